@@ -300,3 +300,6 @@ V("C17", "pflow_exit_code_overwritten", "violation", (PFLOW, "        system.exi
 V("C17", "benign_pflow_exit_code_if_form", "silent", (PFLOW, "        system.exit_code += 0 if self.converged else 1\n", "        if not self.converged:\n            system.exit_code += 1\n"))
 V("C20", "update_not_rolled_back", "violation", (COMMONF, "            for key, val in previous.items():\n                if val is _missing:\n                    self.__dict__.pop(key, None)\n                else:\n                    self.__dict__[key] = val\n            raise\n", "            raise\n"), rule="C20.alternatives")
 V("C12", "island_search_unbounded", "violation", (SYSTEM, "            if starting_bus >= n:\n                break\n\n", ""), rule="C12.series")
+V("C15", "unpack_keeps_stale_dataframes", "violation", (DAEF, "            for name in ('df_x', 'df_y', 'df_z', 'df_xy', 'df_xyz'):\n                self.__dict__.pop(name, None)\n", "            pass\n"), rule="C15.fresh")
+V("C15", "npz_first_chunk_from_cached_view", "violation", (DAEF, "                # `txyz` is unpacked automatically on its first access only\n                self.ts.unpack()\n", ""), rule="C15.fresh")
+V("C15", "csv_header_body_different_lists", "violation", ("andes/plot.py", "        body = self.get_values(idx)\n", "        idx = sorted(idx)\n        body = self.get_values(idx)\n"), rule="C15.fresh")
